@@ -208,6 +208,10 @@ func (f *flush) addBaseTimer(name string, timer gostatsd.Timer) {
 }
 
 func (f *flush) addHistogramTimer(name string, timer gostatsd.Timer) {
+	if len(timer.Histogram) == 0 {
+		// No buckets (timer-histogram-limit=0): there is no field to write, and a line without fields is invalid.
+		return
+	}
 	writeName(f.writer, name, timer.Tags)
 
 	var sb strings.Builder
